@@ -33,6 +33,18 @@ def prepare(src, want):
       loc, g, nl = analysis.fn_locals(fn)
       p.locals[vid], p.globals_decl[vid], p.nonlocals_decl[vid] = loc, g, nl
       p.comp[vid] = analysis.enclosing_compounds(p.a, fn)
+  # lexical nesting of functions (names resolve lexically, whoever the caller is)
+  p.lex_parent = {}
+
+  def rec(n, cur):
+    for c in ast.iter_child_nodes(n):
+      if isinstance(c, (ast.FunctionDef, ast.AsyncFunctionDef, ast.Lambda)):
+        p.lex_parent[c._vid] = cur
+        rec(c, c._vid)
+      else:
+        rec(c, cur)
+
+  rec(p.a.tree, None)
   return p
 
 
@@ -60,13 +72,29 @@ def run(p, inp, limit=10.0):
 
 def owner_activation(p, act, name):
   """Activation (act or an ancestor still on the dynamic chain) whose function binds `name`."""
+  if act is None:
+    return None
+  # 1. the function that binds `name` for code running in act's function: lexical resolution
+  fv = act.fn_vid
+  owner = None
+  while fv is not None:
+    loc = p.locals.get(fv)
+    if loc is None:
+      return None      # a function outside the analysed one (module-level helper): its names are its own / globals
+    if name in loc:
+      owner = fv
+      break
+    if name in p.globals_decl.get(fv, ()):
+      return None
+    fv = p.lex_parent.get(fv)
+  if owner is None:
+    return None
+  # 2. the nearest activation of that function on the dynamic chain (a stored function object may be
+  #    called from anywhere: through an alias, a container, a registry, another local function)
   cur = act
   while cur is not None:
-    loc = p.locals.get(cur.fn_vid)
-    if loc is not None and name in loc:
+    if cur.fn_vid == owner:
       return cur
-    if loc is not None and name in p.globals_decl.get(cur.fn_vid, ()):
-      return None
     cur = cur.parent
   return None
 
@@ -153,7 +181,7 @@ def check_rd(p, tr, fails, stats):
               li[n] = next(iter(d))
             bi.add(n)
           elif n in p.nonlocals_decl[act.fn_vid]:
-            own = owner_activation(p, act.parent, n) if act.parent is not None else None
+            own = owner_activation(p, act, n)
             if own is not None:
               last.setdefault(own.index, {})[n] = 'TAINT'
       elif k == 'd':
@@ -162,7 +190,7 @@ def check_rd(p, tr, fails, stats):
             li[n] = 'DEL'
             bi.discard(n)
           elif n in p.nonlocals_decl[act.fn_vid]:
-            own = owner_activation(p, act.parent, n) if act.parent is not None else None
+            own = owner_activation(p, act, n)
             if own is not None:
               last.setdefault(own.index, {})[n] = 'TAINT'
       elif k == 'r':
